@@ -149,6 +149,13 @@ CLAIMS = {
     "C31": C("A lookup built from a frame merged on (id, step) must be keyed on both keys; no in-place write through "
              "a view of net.trafo; written values depend on tap_pos and id_characteristic_table of the same rows.",
              "key-collapse dependence analysis + alias/view analysis"),
+    "C32": C("Only argument order, transform pairing and serialisation bookkeeping of the characteristic classes are claimed: "
+             "abscissae before ordinates from the object's own support points in np.interp / interp1d / PchipInterpolator, "
+             "forwarding of kind / bounds_error / fill_value, from_points / from_gradient pairing; LogSplineCharacteristic "
+             "stores log10 of x and y in the matching attributes and calls 10**interpolator(log10(x)); the cached scipy object "
+             "is excluded from JSON and rebuilt from attributes assigned in __init__. The interpolation property of scipy's "
+             "objects on run-time data is not decided.",
+             "ast call-binding / sibling-pairing analysis"),
     "C33": C("Only the structure of the saturation of the DER controller's target is claimed: every masked assignment reads the "
              "per-element vectors with its own mask; q is clamped with column 0 below and column 1 above of the area's "
              "flexibility (the columns in_area compares with); apparent-power saturation selects p^2+q^2 > s^2 with "
@@ -167,5 +174,4 @@ NOT_APPLICABLE = {
     "C06": "agreement of five iterative solvers and two back-ends is equality of numerical fixed points; no shape-of-code clause is a necessary condition of it (DESIGN.md section 5)",
     "C11": "equality of sequence-frame and single-phase solutions and per-phase balance are numerical; no structural clause beyond those checked for C01/C02 (DESIGN.md section 5)",
     "C21": "round-trip equality of power-flow results through ppc/mpc is numerical; a column-coverage proxy would fire on legitimate converter scope changes (DESIGN.md section 5)",
-    "C32": "interpolation through support points is a property of scipy interpolators on run-time data (DESIGN.md section 5)",
 }
